@@ -39,23 +39,24 @@ inductive Event
 abbrev Log := List Event
 
 /-- error, or a value together with the events emitted while computing it (in call order) -/
-def W (α : Type) := Except Err (α × Log)
+structure W (α : Type) where
+  run : Except Err (α × Log)
 
 namespace W
-def pure {α} (a : α) : W α := .ok (a, [])
+def pure {α} (a : α) : W α := ⟨.ok (a, [])⟩
 def bind {α β} (x : W α) (f : α → W β) : W β :=
-  match x with
-  | .error e => .error e
+  match x.run with
+  | .error e => ⟨.error e⟩
   | .ok (a, l) =>
-    match f a with
-    | .error e => .error e
-    | .ok (b, l') => .ok (b, l ++ l')
+    match (f a).run with
+    | .error e => ⟨.error e⟩
+    | .ok (b, l') => ⟨.ok (b, l ++ l')⟩
 instance : Monad W := { pure := W.pure, bind := W.bind }
-def tell (l : Log) : W Unit := .ok ((), l)
-def fail {α} (e : Err) : W α := .error e
+def tell (l : Log) : W Unit := ⟨.ok ((), l)⟩
+def fail {α} (e : Err) : W α := ⟨.error e⟩
 def lift {α} : Except Err α → W α
-  | .ok a => .ok (a, [])
-  | .error e => .error e
+  | .ok a => ⟨.ok (a, [])⟩
+  | .error e => ⟨.error e⟩
 end W
 
 /-! ### series helpers -/
